@@ -121,6 +121,10 @@ def main(argv=None):
     s.add_argument('--repo', default='/repo')
     s.add_argument('-j', '--jobs', type=int, default=min(16, os.cpu_count() or 1))
     s.add_argument('--only', default=None)
+    sd = sub.add_parser('seeded')
+    sd.add_argument('--repo', default='/repo')
+    sd.add_argument('-j', '--jobs', type=int, default=min(16, os.cpu_count() or 1))
+    sd.add_argument('--only', default=None)
     a = ap.parse_args(argv)
     seed = int(os.environ.get('VERIF_SEED', '0') or 0)
     if a.cmd == 'check':
@@ -133,6 +137,9 @@ def main(argv=None):
     if a.cmd == 'selftest':
         from .selftest import driver
         return driver.main(a)
+    if a.cmd == 'seeded':
+        from .selftest import seeded
+        return seeded.main(a)
     ap.print_help()
     return 2
 
